@@ -377,3 +377,130 @@ def meta(results, tier):
                             'clock readings non-decreasing; floats as reals', 'A-SQL-iso for exactly-once delivery under concurrency',
                             'Lean lemma lex_range_prefix checked in setup_cmd'],
             'explanation': 'push/pull/peek executed on the symbolic table model with loop invariants for the retry loops'}
+
+
+# ------------------------------------------------------------------ peekitem (C03 / C04 / C12): same retry-loop shape over rowid order
+def install_peekitem_loops(ctx, last):
+    def inv(it, fr, _):
+        st = it.st
+        w, w0 = st.world, c03.world0(st)
+        q, q2 = z3.Ints('q_pi q_pi2')
+        parts = [SM.invariant(w)]
+        for c in SM.COLS:
+            parts.append(w['T.' + c] == w0['T.' + c])
+            if SM.COLS[c][1]:
+                parts.append(w['T.' + c + '?'] == w0['T.' + c + '?'])
+        parts.append(z3.ForAll([q], z3.Implies(z3.Select(w['T.live'], q), z3.Select(w0['T.live'], q))))
+        removed = lambda x: z3.And(z3.Select(w0['T.live'], x), z3.Not(z3.Select(w['T.live'], x)))
+        # removed rows were at the requested end of the insertion order and had an expiry
+        if last:
+            parts.append(z3.ForAll([q, q2], z3.Implies(z3.And(removed(q), z3.Select(w['T.live'], q2)), q > q2)))
+        else:
+            parts.append(z3.ForAll([q, q2], z3.Implies(z3.And(removed(q), z3.Select(w['T.live'], q2)), q < q2)))
+        parts.append(z3.ForAll([q], z3.Implies(removed(q), z3.Not(z3.Select(w0['T.expire_time?'], q)))))
+        parts.append(z3.And(w['S.hits'] == w0['S.hits'], w['S.misses'] == w0['S.misses']))
+        parts.append(z3.BoolVal(not st.world.get('txn.active')))
+        parts.append(c03.files_agree(w))
+        parts.append(files_unique(w))
+        return z3.And(*parts)
+
+    def on_havoc(it, fr):
+        it.st.ghost['inv_arrays'] = None
+    keys = ['T.live', 'T.idx', 'T.card', 'S.count', 'S.size', 'F.exists']
+    names = ('rowid', 'db_key', 'raw', 'db_expire', 'db_tag', 'mode', 'name', 'db_value', 'rows', 'value', 'key')
+    shapes = {n: (lambda st: None) for n in names}
+    ctx.loop_invariants[('diskcache.core.Cache.peekitem', 0)] = LoopSpec('C03.peekitem.outer', inv, havoc_world=keys, on_havoc=on_havoc, shapes=shapes)
+    ctx.loop_invariants[('diskcache.core.Cache.peekitem', 1)] = LoopSpec('C03.peekitem.inner', inv, havoc_world=keys, on_havoc=on_havoc, shapes=shapes)
+
+
+def peekitem_task(pid, last):
+    ctx = cctx()
+    install_peekitem_loops(ctx, last)
+
+    def body(st):
+        ctx.sql.busy = False
+        ctx.sql.faults = False
+        it = ctx.interp(st)
+        cache = make_cache(ctx, st, policy='none')
+        st.assume(c03.files_agree(st.world))
+        st.assume(files_unique(st.world))
+        a = {'last': last, 'expire_time': False, 'tag': False, 'retry': st.fresh_sv('retry', 'bool')}
+        st.ghost['args'] = a
+        st.ghost['self'] = cache
+        return it.call(ctx.func('diskcache.core.Cache.peekitem'), [cache], dict(a))
+    out = []
+    nret = 0
+    for n, p in enumerate(explore(body, max_paths=3000)):
+        st = p.state
+        base = '%s.peekitem[last=%s]#%d' % (pid, last, n)
+        fn = 'Cache.peekitem'
+        for o in st.obligations:
+            out.append(discharge('%s/%s' % (base, o.name), o.kind, o.pc, o.goal, function=fn, path=p.decisions))
+        if p.kind == 'cut' or c03.timeout_path(p):
+            continue
+        w, w0 = st.world, c03.world0(st)
+        q = z3.Int('q_pk')
+        if p.kind == 'raise':
+            if p.value.cls == 'KeyError':
+                out.append(discharge(base + '.keyerror_only_when_empty', 'refine', p.pc,
+                                     z3.ForAll([q], z3.Not(z3.Select(w['T.live'], q))), function=fn, path=p.decisions))
+            else:
+                r = discharge(base + '.no_other_exception', 'post', p.pc, z3.BoolVal(False), function=fn, path=p.decisions)
+                r['detail'] = 'raises %r' % (p.value,) if r['verdict'] != 'proved' else None
+                out.append(r)
+            continue
+        nret += 1
+        sel = [e[1] for e in st.trace if e[0] == 'SELECT_FIRST']
+        if not sel or not (isinstance(p.value, tuple) and len(p.value) == 2):
+            out.append(Result(base + '.result_shape', 'post', 'refuted', ms=0, backend='engine', function=fn, path=p.decisions,
+                              detail='returns %r' % (p.value,)))
+            continue
+        r = sel[-1]['rowid']
+        key, value = p.value
+        ts = c03.clock_readings(st)
+        ext = z3.ForAll([q], z3.Implies(z3.Select(w['T.live'], q), (q <= r) if last else (q >= r)))
+        parts = [('is_the_end_of_insertion_order', z3.And(z3.Select(w['T.live'], r), z3.Select(w0['T.live'], r), ext)),
+                 ('returns_its_key_and_value', z3.And(to_pyobj(key) == cc.KGET(z3.Select(w0['T.key'], r), z3.Select(w0['T.raw'], r)),
+                                                      to_pyobj(value) == cc.row_value(w0, r)))]
+        if ts:
+            parts.append(('not_expired', z3.Or(z3.Select(w0['T.expire_time?'], r), z3.Select(w0['T.expire_time'], r) > ts[-1])))
+        for nm, part in SM.invariant(w, named=True):
+            parts.append(('inv.' + nm, part))
+        for nm, g in parts:
+            out.append(discharge('%s.%s' % (base, nm), 'refine', p.pc, g, function=fn, path=p.decisions))
+    if nret == 0:
+        out.append(Result('%s.peekitem[last=%s]' % (pid, last), 'vacuity', 'error', detail='no returning path'))
+    return out
+
+
+def accessors_task(pid):
+    """len() and stats(): counters reported as stored (and equal to the number of rows by the invariant)."""
+    ctx = cctx()
+    out = []
+    for meth in ('__len__', 'stats'):
+        def body(st, meth=meth):
+            it = ctx.interp(st)
+            cache = make_cache(ctx, st, policy='none')
+            if meth == 'stats':
+                en = st.fresh_sv('enable', 'bool')
+                rs = st.fresh_sv('reset', 'bool')
+                st.ghost['args'] = {'enable': en, 'reset': rs}
+                return it.call(ctx.func('diskcache.core.Cache.stats'), [cache, en, rs], {})
+            return it.call(ctx.func('diskcache.core.Cache.__len__'), [cache], {})
+        for n, p in enumerate(explore(body)):
+            st = p.state
+            w, w0 = st.world, c03.world0(st)
+            base = '%s.%s#%d' % (pid, meth, n)
+            if p.kind != 'return':
+                out.append(Result(base, 'post', 'refuted', ms=0, backend='engine', function='Cache.' + meth, path=p.decisions,
+                                  detail='raises %r' % (p.value,)))
+                continue
+            if meth == '__len__':
+                goal = z3.And(int_term(p.value) == w0['T.card'], c03.eq_world(w0, w))
+            else:
+                a = st.ghost['args']
+                goal = z3.And(int_term(p.value[0]) == w0['S.hits'], int_term(p.value[1]) == w0['S.misses'],
+                              w['S.hits'] == z3.If(a['reset'].t, 0, w0['S.hits']), w['S.misses'] == z3.If(a['reset'].t, 0, w0['S.misses']),
+                              *[w[k] == w0[k] for k in w0 if k.startswith('T.')])
+            out.append(discharge(base + '.reports_counters', 'refine', p.pc, goal, function='Cache.' + meth, path=p.decisions))
+    return out
